@@ -20,3 +20,11 @@ Definition py_suffix (n : nat) (s : str) : str := skipn (length s - n) s.
 (* s.startswith(p) / s.endswith(p) *)
 Definition py_startswith (p s : str) : bool := str_eqb (py_prefix (length p) s) p.
 Definition py_endswith (p s : str) : bool := str_eqb (py_suffix (length p) s) p.
+
+(* p in s  (substring test) *)
+Fixpoint py_contains (p s : str) : bool :=
+  py_startswith p s || match s with [] => false | _ :: s' => py_contains p s' end.
+
+(* Fragment.__init__ homopolymer filter:  n*'X' in seq  for some X of [bases] *)
+Definition homopolymer (n : nat) (bases : list Z) (s : str) : bool :=
+  existsb (fun b => py_contains (repeat b n) s) bases.
